@@ -140,7 +140,9 @@ func cmdCheck(args []string) int {
 	if !*noReplay {
 		for _, d := range dirs {
 			for _, j := range byDir[d] {
-				rp.want(j)
+				if !j.EngineOnly {
+					rp.want(j)
+				}
 			}
 		}
 		rp.startBuilds()
@@ -235,7 +237,7 @@ func cmdCheck(args []string) int {
 	if !*noReplay {
 		for _, j := range jobs {
 			for i, ps := range j.pathSamples {
-				if ps.Inputs == nil && len(ps.Reach) == 0 {
+				if (ps.Inputs == nil && len(ps.Reach) == 0) || j.Spec.EngineOnly {
 					continue
 				}
 				ok, why := rp.validate(j.Spec, ps, i)
